@@ -296,6 +296,28 @@ func (c searchCfg) pruneFuncs(bad *error) (pre, post func(*graph.DenseGraph) boo
 				*bad = fmt.Errorf("predicate called with a malformed graph: M()=%d Degrees()=%v but edges %v", d.M(), d.Degrees(), clipEdges(g))
 				return true
 			}
+			// what a caller's predicate would do: read the graph through the library's own helpers and views
+			degs := g.Degs()
+			mn, mx := d.N(), 0
+			for _, x := range degs {
+				mn, mx = min(mn, x), max(mx, x)
+			}
+			if a, b := graph.MinDegree(d), graph.MaxDegree(d); a != mn || b != mx {
+				*bad = fmt.Errorf("inside a predicate: graph.MinDegree/MaxDegree = %d/%d but the graph handed over has degrees %v (edges %v)", a, b, degs, clipEdges(g))
+				return true
+			}
+			co := graph.Complement(d)
+			cd := co.Degrees()
+			for v, x := range degs {
+				if cd[v] != d.N()-1-x {
+					*bad = fmt.Errorf("inside a predicate: Complement(g).Degrees() = %v but g has degrees %v", cd, degs)
+					return true
+				}
+			}
+			if co.M() != d.N()*(d.N()-1)/2-cnt || !eqInts(d.Degrees(), degs) {
+				*bad = fmt.Errorf("inside a predicate: Complement(g).M() = %d, Degrees() afterwards %v; g has %d edges, degrees %v", co.M(), d.Degrees(), cnt, degs)
+				return true
+			}
 			return !p.holds(g)
 		}
 	}
